@@ -129,3 +129,13 @@ def sample_keep(seq, n, seed):
     return seq
   rnd = random.Random(seed)
   return rnd.sample(seq, n)
+
+
+def as_dataset(samples, style):
+  """The calibration data as the API's `Iterable`: a list (style 0), a generator (1) or a one-shot iterator (2)."""
+  style %= 3
+  if style == 0:
+    return list(samples)
+  if style == 1:
+    return (s for s in list(samples))
+  return iter(list(samples))
